@@ -62,7 +62,7 @@ Matches(o, ev) ==
 Note(reg, x) == TLCSet(reg, TLCGet(reg) \cup x)
 Count(reg) == TLCSet(reg, TLCGet(reg) + 1)
 
-Fresh == {[st |-> InitSt, kf |-> {}, skip |-> FALSE]}
+Fresh == {[st |-> InitSt, kf |-> {}, skip |-> FALSE, x |-> X0]}
 
 \* the deviations a finished trace needed: those of a candidate that needed fewest
 Fewest(cs) == IF cs = {} THEN {}
@@ -85,17 +85,22 @@ TraceStep ==
        /\ IF skip THEN UNCHANGED <<cands, bad, w, mt>> /\ Count(5)
           ELSE IF ev.call.op = "wrap" THEN
                \* from here on the calls of this trace go through a wrapper around the same base
-               cands' = pre /\ bad' = FALSE /\ w' = ev.call.flag[1] /\ mt' = ev.mt /\ Count(4)
+               \* flag = <<kind>> or <<"failfs", fn>> with the plan's k in n
+               /\ cands' = {[cd EXCEPT !.x = IF Len(ev.call.flag) > 1
+                                              THEN [plan |-> [fn |-> ev.call.flag[2], k |-> ev.call.n], fc |-> EmptyFn]
+                                              ELSE X0] : cd \in pre}
+               /\ bad' = FALSE /\ w' = ev.call.flag[1] /\ mt' = ev.mt /\ Count(4)
           ELSE
           LET call == IF Impl = "osfs" THEN ev.call ELSE CleanCall(ev.call)
-              mtok == wpre # "rofs" \/ ev.mt = mt
-              nxt == UNION {{[st |-> o.st, kf |-> cd.kf \cup (IF o.kf = "" THEN {} ELSE {o.kf}), skip |-> o.skip]
-                              : o \in {x \in WOutcomes(wpre, Impl, cd.st, call) :
-                                          Matches(x, ev) /\ BaseUntouched(wpre, cd.st, x) /\ mtok}}
+              mtok == wpre \notin {"rofs", "failro"} \/ ev.mt = mt
+              consok(o) == wpre # "failfs" \/ o.cons = ev.cons
+              nxt == UNION {{[st |-> o.st, kf |-> cd.kf \cup (IF o.kf = "" THEN {} ELSE {o.kf}), skip |-> o.skip, x |-> o.x]
+                              : o \in {y \in WOutcomes(wpre, Impl, cd.st, call, cd.x) :
+                                          Matches(y, ev) /\ BaseUntouched(wpre, cd.st, y) /\ mtok /\ consok(y)}}
                             : cd \in pre}
               live == {c \in nxt : ~c.skip} IN
           /\ Count(4)
-          /\ w' = wpre /\ mt' = (IF wpre = "rofs" THEN mt ELSE ev.mt)
+          /\ w' = wpre /\ mt' = (IF wpre \in {"rofs", "failro"} THEN mt ELSE ev.mt)
           /\ IF live # {} THEN cands' = live /\ bad' = FALSE
              ELSE IF nxt # {} THEN
                   \* explained, but only by a deviation after which the reference says nothing about the state
